@@ -253,6 +253,8 @@ pub struct MpmcWorld<A: MpmcApi> {
     next_id: usize,
     next_tag: u32,
     prefill_left: u64,
+    /// try_receive operations right after the prefill burst (a long backlog drained in one go)
+    drain_left: u64,
     /// a burst of NewRecv / Poll pairs at the start of the run (many simultaneous receivers)
     burst_left: u64,
     burst_poll: Option<usize>,
@@ -655,6 +657,7 @@ impl<A: MpmcApi> World for MpmcWorld<A> {
             next_id: 0,
             next_tag: 1,
             prefill_left: cfg_get(cfg, "prefill", 0).max(0) as u64,
+            drain_left: cfg_get(cfg, "drain", 0).max(0) as u64,
             burst_left: cfg_get(cfg, "burst", 0).max(0) as u64,
             burst_poll: None,
             observer_on,
@@ -694,6 +697,10 @@ impl<A: MpmcApi> World for MpmcWorld<A> {
             self.prefill_left -= 1;
             self.next_tag += 1;
             return Some(Op::new(OP_TRY_SEND, 0, *rng.pick(&txs) as u32, (self.next_tag - 1) as u64));
+        }
+        if self.prefill_left == 0 && self.drain_left > 0 && !rxs.is_empty() {
+            self.drain_left -= 1;
+            return Some(Op::new(OP_TRY_RECV, 0, *rng.pick(&rxs) as u32, 0));
         }
         let pollable: Vec<usize> = live.iter().copied().filter(|id| matches!(env.slots[*id].st, St::Fresh | St::Pending)).collect();
         let done: Vec<usize> = live.iter().copied().filter(|id| env.slots[*id].st == St::Done).collect();
@@ -1317,15 +1324,26 @@ fn draw_cfg(rng: &mut Rng) -> Cfg {
     c.insert("cap".into(), cap);
     // large buffers: a run of ordinary length never fills them, so some runs start with a burst
     // of try_send operations (part of the recorded history; `len` grows accordingly)
-    let prefill = if cap >= 5 && rng.pct(60) { rng.range(cap / 3, cap + 1) } else { 0 };
+    let mut prefill = if cap >= 5 && rng.pct(60) { rng.range(cap / 3, cap + 1) } else { 0 };
+    // growing heap buffers: now and then a backlog of 40 / 70 values that is then drained almost
+    // completely (allocation growth and any shrink-after-burst logic of the buffer)
+    let mut drain = 0;
+    let mut cap = cap;
+    if FLAVOURS[flavour as usize].0.contains("growingheap") && rng.pct(12) {
+        cap = *rng.pick(&[40i64, 70]);
+        c.insert("cap".into(), cap);
+        prefill = cap;
+        drain = cap - rng.range(1, 4);
+    }
     c.insert("prefill".into(), prefill);
+    c.insert("drain".into(), drain);
     // live futures: mostly few (small joint states recur), sometimes many (batch loops, deep heaps / queues)
     let k = if rng.pct(88) { rng.range(1, 4) } else { *rng.pick(&[6i64, 9]) };
     c.insert("k".into(), k);
     // rarely: more than 32 simultaneous receivers (close() and the last sender wake them all)
     let burst = if prefill == 0 && rng.pct(3) { *rng.pick(&[33i64, 34, 40]) } else { 0 };
     c.insert("burst".into(), burst);
-    c.insert("len".into(), rng.range(8, 96) + prefill + 2 * burst);
+    c.insert("len".into(), rng.range(8, 96) + prefill + drain + 2 * burst);
     c.insert("realism".into(), *rng.pick(&[10, 50, 90]));
     c.insert("observer".into(), rng.pct(80) as i64);
     let base = [150u32, 320, 90, 40, 90, 150, 70, 25, 30, 40, 30, 40, 25, 2];
